@@ -7,7 +7,7 @@
 package plugin
 
 //@ define LOG emits, last_level, last_msg, last_args
-//@ define START_EFFECTS pool_der, heap, launches, kills, rf_calls, launched, cancelled, wg_count, hdata, open_files, sc_checks, sel_reached, conns_open, rd_done, $LOG
+//@ define START_EFFECTS pool_der, drain_spawned, scanning, heap, launches, kills, rf_calls, launched, cancelled, wg_count, hdata, open_files, sc_checks, sel_reached, conns_open, rd_done, $LOG
 //@ define CLIENT_EFFECTS $START_EFFECTS, yopens, yaccepts, tokens, creg
 //@ ghost launched: map[Int]Int
 //@ ghost sc_checks: Int
@@ -86,10 +86,16 @@ package plugin
 //@   requires !held(c.l)
 //@   modifies $START_EFFECTS
 //@   local sel_reached: Bool := false
+//@   local scanning: Bool := false
+//@   at go#3 set scanning := true
+//@   ensures scanning ==> drain_spawned == old(drain_spawned) + 1   [C10.drained] [C03.c]
+//@   ensures !scanning ==> drain_spawned == old(drain_spawned)   [C10.drained]
+//@   at call strings.Join#1 assert forall v: Int :: (v in c.config.VersionedPlugins) <==> (old(v in c.config.VersionedPlugins) || (v == version && c.config.Plugins != nil))   [C02.offer]
+//@   at call strings.Join#1 assert forall v: Int :: old(v in c.config.VersionedPlugins) ==> c.config.VersionedPlugins[v] == old(c.config.VersionedPlugins[v])   [C02.offer]
+//@   at call strings.Join#1 assert c.config.Plugins != nil && !old(version in c.config.VersionedPlugins) ==> c.config.VersionedPlugins[version] == c.config.Plugins   [C02.offer]
 //@   after call generateCert#1 bind cpem: Slice := ret0
-//@   at call fmt.Sprintf#6 assert arg0 == "PLUGIN_CLIENT_CERT=%s" && len(arg1) == 1 && arg1[0] == iface(cpem)   [C12.env]
-//@   at store tls.Config.ClientAuth#1 assert value == 4   [C12.client]
-//@   at store tls.Config.MinVersion#1 assert value >= 771   [C12.client]
+//@   at call fmt.Sprintf("PLUGIN_CLIENT_CERT=%s")#1 assert len(arg1) == 1 && arg1[0] == iface(cpem)   [C12.env]
+//@   at call (runner.Runner).Start#1 assert c.config.AutoMTLS ==> c.config.TLSConfig != nil && c.config.TLSConfig.ClientAuth == 4 && c.config.TLSConfig.MinVersion >= 771 && len(c.config.TLSConfig.Certificates) == 1   [C12.client]
 //@   at call (*Client).loadServerCert#1 assert arg0 == parts[5]   [C12.pin]
 //@   loop#2 invariant forall j :: 0 <= j && j <= rangeindex ==> c.config.AllowedProtocols[j] != c.protocol
 //@   after call (*sync.Mutex).Lock#1 bind a0: Iface := c.address
@@ -117,7 +123,7 @@ package plugin
 //@   ensures old(c.client) != nil ==> c.client == old(c.client)   [C19.client]
 //@   ensures old(c.address) != nil ==> addr == old(c.address) && err == nil && launches == old(launches) && rf_calls == old(rf_calls) && c.address == old(c.address) && kills == old(kills)   [C19.addr]
 //@   ensures err == nil ==> c.address == addr && addr != nil   [C19.addr]
-//@   ensures err != nil && a0 == nil && c.config.Reattach == nil ==> c.address == nil   [C19.stable]
+//@   ensures err != nil && a0 == nil && c.config.Reattach == nil ==> c.address == nil   [C19.stable] [C01.f]
 //@   ensures a0 == nil && c.config.Reattach == nil && err == nil ==> sel_reached && sel == 2 && N(line) >= 4   [C01.b-fields]
 //@   ensures a0 == nil && c.config.Reattach == nil && err == nil ==> atoi_ok(P(line, 0)) && atoi_val(P(line, 0)) == 1   [C01.b-core]
 //@   ensures a0 == nil && c.config.Reattach == nil && err == nil ==> atoi_ok(P(line, 1)) && atoi_val(P(line, 1)) in c.config.VersionedPlugins   [C01.b-app]
@@ -467,9 +473,17 @@ package plugin
 //@   ensures wg_count[c.clientWaitGroup] == old(wg_count)[c.clientWaitGroup] - 1   [C03.a]
 //@   ensures !held(c.l)   [C03.a]
 
+//@ ghost drain_spawned: Int
+
+//@ func (*Client).Start$4
+//@   inline
+//@   at go#1 set drain_spawned := drain_spawned + 1
+
 //@ func (*Client).Start$3
 //@   nopanic [C10.total] [C03.d]
 //@   close_once [C20.close1]
+//@   bounded peer-dead [C03.c]
+//@   wait send#1 received by Start's select or by the drain goroutine Start$4$1, which Start spawns on every return path once this goroutine exists (obligation (*Client).Start/ensures/C10.drained)
 //@   requires c != nil && c.logger != nil && runner != nil && linesCh != nil && !closed(linesCh)
 //@   modifies heap, wg_count, scan_err, rd_done, hdata, $LOG
 //@   after call (runner.Runner).Stdout#1 bind so: Iface := ret
@@ -789,6 +803,8 @@ package plugin
 //@   loop#1 invariant !held(m.Mutex)   [C09.balance]
 //@   at call (*GRPCBroker).getServerStream#1 assert arg0 == msg.ServiceId && is_knock(msg)   [C08.run]
 //@   at call (*GRPCBroker).getClientStream#1 assert arg0 == msg.ServiceId && !is_knock(msg)   [C07.file] [C08.run]
+//@   after call (*GRPCBroker).getClientStream#1 bind cps: Ref := ret
+//@   at call (*GRPCBroker).timeoutWait#1 assert !is_knock(msg) && arg0 == m && arg1 == msg.ServiceId && arg2 == cps   [C08.run] [C09.timer]
 
 //@ func (*GRPCBroker).Accept
 //@   nopanic [C07.total] [C08.total] [C03.d] [C20.nopanic]
@@ -968,6 +984,7 @@ package plugin
 //@   nonblocking
 //@   requires s.quit != nil
 //@   modifies heap
+//@   ensures closed(s.quit)   [C09.exit]
 
 //@ func (*gRPCBrokerServer).Close$1
 //@   nopanic [C20.nopanic]
@@ -1026,6 +1043,7 @@ package plugin
 //@   nonblocking
 //@   requires s.quit != nil
 //@   modifies heap
+//@   ensures closed(s.quit)   [C09.exit]
 
 //@ func (*gRPCBrokerClientImpl).Close$1
 //@   nopanic [C20.nopanic]
@@ -1075,6 +1093,7 @@ package plugin
 //@   modifies heap
 //@   after call (plugin.GRPCBroker_StartStreamServer).Recv#1 bind m0: Ref := ret0
 //@   at select#1 assert sent2 == m0   [C07.pump]
+//@   ensures closed(s.quit)   [C09.exit] [C03.c]
 
 //@ func (*gRPCBrokerClientImpl).StartStream
 //@   nopanic [C07.total] [C03.d] [C20.nopanic]
@@ -1084,6 +1103,7 @@ package plugin
 //@   modifies heap, cancelled
 //@   after call (plugin.GRPCBroker_StartStreamClient).Recv#1 bind m0: Ref := ret0
 //@   at select#1 assert sent2 == m0   [C07.pump]
+//@   ensures closed(s.quit)   [C09.exit] [C03.c]
 
 // ---------------------------------------------------------------------------------------
 // Serve (C16, C18, C11, C12, C15, C02)
@@ -1119,10 +1139,10 @@ package plugin
 //@   after call (ServerProtocol).Init#1 set inited := ret == nil
 //@   at call protocolVersion#1 assert opts.Test == nil ==> !cookie_bad(opts)   [C16.gate]
 //@   at call protocolVersion#1 assert listens == l0 && stdout_writes == w0 && files == f0   [C16.gate]
-//@   at call fmt.Sprintf#1 assert opts.Test == nil && arg0 == "%d|%d|%s|%s|%s|%s" && len(arg1) == 6   [C16.fields]
-//@   at call fmt.Sprintf#1 assert arg1[0] == iface(1) && arg1[1] == iface(pv) && arg1[4] == iface(cast(pt, "Protocol"))   [C16.fields] [C02.serve]
-//@   at call fmt.Sprintf#1 assert arg1[2] == iface(net_of(lis_addr(listener))) && arg1[3] == iface(str_of(lis_addr(listener)))   [C16.fields]
-//@   at call fmt.Sprintf#2 assert arg0 == "|%v" && getenv("PLUGIN_MULTIPLEX_GRPC") != ""   [C16.fields]
+//@   at call fmt.Sprintf("%d|%d|%s|%s|%s|%s")#1 assert opts.Test == nil && len(arg1) == 6   [C16.fields]
+//@   at call fmt.Sprintf("%d|%d|%s|%s|%s|%s")#1 assert arg1[0] == iface(1) && arg1[1] == iface(pv) && arg1[4] == iface(cast(pt, "Protocol"))   [C16.fields] [C02.serve]
+//@   at call fmt.Sprintf("%d|%d|%s|%s|%s|%s")#1 assert arg1[2] == iface(net_of(lis_addr(listener))) && arg1[3] == iface(str_of(lis_addr(listener)))   [C16.fields]
+//@   at call fmt.Sprintf("|%v")#1 assert getenv("PLUGIN_MULTIPLEX_GRPC") != ""   [C16.fields]
 //@   at call fmt.Printf#1 assert opts.Test == nil && arg0 == "%s\n" && stdout_writes == w0 && inited && listened && lsn == lsn0 + 1   [C16.one]
 //@   at store global os.Stdout#1 assert opts.Test == nil ==> stdout_writes == w0 + 1   [C16.swap]
 //@   at go#2 assert opts.Test == nil ==> stdout_writes == w0 + 1   [C16.one]
@@ -1144,6 +1164,8 @@ package plugin
 //@   at call (ServerProtocol).Init#1 assert opts.TLSProvider == nil && getenv("PLUGIN_CLIENT_CERT") != "" ==> tlsConfig != nil && tlsConfig == tc && tc.ClientAuth == 4 && tc.ClientCAs == pool && pool_pem(pool) == getenv("PLUGIN_CLIENT_CERT") && tc.MinVersion >= 771   [C12.server]
 //@   at call (ServerProtocol).Init#1 assert opts.TLSProvider == nil && getenv("PLUGIN_CLIENT_CERT") == "" ==> tlsConfig == nil   [C12.server]
 //@   at call (ServerProtocol).Serve#1 assert arg0 == listener && recv == server   [C12.wrap]
+//@   at call (ServerProtocol).Serve#1 assert opts.Test == nil && pt == "grpc" ==> unbox(server, "*GRPCServer").Stdout == iface(cast(pipe_reader(pkg("os").Stdout), "*os.File")) && unbox(server, "*GRPCServer").Stderr == iface(cast(pipe_reader(pkg("os").Stderr), "*os.File"))   [C11.pipe]
+//@   at call (ServerProtocol).Serve#1 assert opts.Test == nil && pt == "netrpc" ==> unbox(server, "*RPCServer").Stdout == iface(cast(pipe_reader(pkg("os").Stdout), "*os.File")) && unbox(server, "*RPCServer").Stderr == iface(cast(pipe_reader(pkg("os").Stderr), "*os.File"))   [C11.pipe]
 //@   at send#1 assert opts.Test != nil && value != nil && value.Test && value.Protocol == cast(pt, "Protocol") && value.ProtocolVersion == pv && value.Addr == lis_addr(listener)   [C15.serve]
 //@   ensures old(opts.Test == nil) ==> old(!cookie_bad(opts))   [C16.gate]
 //@   ensures old(opts.Test == nil) ==> stdout_writes <= w0 + 1   [C16.one]
